@@ -56,8 +56,11 @@ def verify_contract(eng, prover, pid, base, fi, contract, st, args, kwargs=None,
         for c, g in zip(same, guards):
             y = x.copy()
             y.assume(g)
+            key = f"{pid}/def:{base}/case:{c.label}"
+            prover.case_reached.setdefault(key, False)
             if not eng.feasible(y):
                 continue
+            prover.case_reached[key] = True
             cx = Cx(eng, pre, x, b, "prove")
             if kind == "normal":
                 cx.result = res
@@ -71,6 +74,13 @@ def verify_contract(eng, prover, pid, base, fi, contract, st, args, kwargs=None,
         raise Unsupported("no feasible path through " + base)
     for label, ok in reached.items():
         prover.structural(f"{pid}/def:{base}/reachable:{label}", ok, None, {"vacuity-guard": label})
+    for c in cases:
+        prover.case_reached.setdefault(f"{pid}/def:{base}/case:{c.label}", False)
+    # vacuity guard: a definition none of whose NORMAL cases is reachable was verified against nothing
+    normal = [c for c in cases if c.kind == "normal"]
+    if normal:
+        prover.structural(f"{pid}/def:{base}/reachable:some-normal-case",
+                          any(prover.case_reached.get(f"{pid}/def:{base}/case:{c.label}") for c in normal), None, {})
     return n
 
 
